@@ -2,3 +2,5 @@ pub mod common;
 pub mod c01;
 pub mod c03;
 pub mod c13;
+pub mod c07;
+pub mod c12;
